@@ -9,10 +9,10 @@ sequences that are exhaustive only semantically (``if a and b … if a and not b
 from __future__ import annotations
 
 import ast
-from typing import Dict, List, Optional, Sequence
+from typing import Dict, List, Optional, Sequence, Tuple
 
 from .model import AnalysisError, FunctionInfo
-from .sym import (FALSE, NONE, TRUE, Evaluator, Frame, Term, Unsupported, satisfiable, show, sym, t_and, t_not)
+from .sym import (FALSE, NONE, TRUE, Evaluator, Frame, Term, Unsupported, is_private_helper, satisfiable, show, sym, t_and, t_not)
 
 MAX_PATHS = 20000
 
@@ -85,10 +85,15 @@ def find_calls(t, name: str, acc=None) -> List[Term]:
 
 
 class PathEnumerator:
-    def __init__(self, ev: Evaluator, prune: bool = True):
+    def __init__(self, ev: Evaluator, prune: bool = True, inline_private: bool = True, no_inline: Optional[Sequence[str]] = None):
         self.ev = ev
         self.prune = prune
         self.count = 0
+        self.localdefs: Dict[Tuple[str, str], ast.FunctionDef] = {}
+        self._inline_depth = 0
+        self._inline_stack: List[str] = []
+        self.inline_private = inline_private        # statement-level calls of private helpers are run in place
+        self.no_inline = set(no_inline or ())
 
     def function_paths(self, fn: FunctionInfo, self_cls=None, args: Optional[Dict[str, Term]] = None) -> List[Path]:
         env: Dict[str, Term] = {}
@@ -157,6 +162,9 @@ class PathEnumerator:
         f = self._frame(fr, p)
         if isinstance(st, (ast.Pass, ast.Import, ast.ImportFrom, ast.Global, ast.Nonlocal)):
             return [p]
+        call = self._local_call(st, p, fr)
+        if call is not None:
+            return self._inline_local(st, call, p, fr)
         if isinstance(st, ast.Expr):
             if isinstance(st.value, ast.Constant):
                 return [p]
@@ -267,11 +275,143 @@ class PathEnumerator:
         if isinstance(st, (ast.FunctionDef, ast.ClassDef)):
             p.env[st.name] = ("localdef", st.name)
             p.events.append(Event("localdef", st))
+            if isinstance(st, ast.FunctionDef):
+                self.localdefs[(fr.fn.qualname, st.name)] = st
             return [p]
         if isinstance(st, ast.Delete):
             p.events.append(Event("effect", st, ("const", ast.unparse(st))))
             return [p]
         raise Unsupported(f"statement {type(st).__name__} at line {st.lineno}")
+
+    # ------------------------------------------------------------------------------------------
+    def _local_call(self, st: ast.stmt, p: Path, fr: Frame):
+        """``f(...)``, ``x = f(...)`` or ``return f(...)`` where f is a closure defined earlier in this function, or a private helper
+        (``self._f``, ``Cls._f``, module-level ``_f``) that resolves statically.  -> (call, def node, FunctionInfo|None, self term, self class)"""
+        v = None
+        if isinstance(st, (ast.Expr, ast.Return)) and isinstance(st.value, ast.Call):
+            v = st.value
+        elif isinstance(st, ast.Assign) and len(st.targets) == 1 and isinstance(st.value, ast.Call):
+            v = st.value
+        elif isinstance(st, ast.AnnAssign) and isinstance(st.value, ast.Call):
+            v = st.value
+        if v is None:
+            return None
+        if any(isinstance(a, ast.Starred) for a in v.args) or any(k.arg is None for k in v.keywords):
+            return None
+        d, info, self_term, self_cls = None, None, None, None
+        if isinstance(v.func, ast.Name):
+            if p.env.get(v.func.id) == ("localdef", v.func.id) and (fr.fn.qualname, v.func.id) in self.localdefs:
+                d = self.localdefs[(fr.fn.qualname, v.func.id)]
+            elif v.func.id not in p.env and self.inline_private:
+                tgt = self.ev.model.lookup_symbol(fr.module, v.func.id)
+                if isinstance(tgt, FunctionInfo) and is_private_helper(tgt):
+                    d, info = tgt.node, tgt
+        elif isinstance(v.func, ast.Attribute) and self.inline_private and v.func.attr.startswith("_") and not v.func.attr.startswith("__"):
+            try:
+                base = self.ev.expr(v.func.value, self._frame(fr, p))
+            except Unsupported:
+                return None
+            c = self.ev.model.maybe_cls(base[1]) if base[0] == "cls" else self.ev.type_of(base)
+            if c is not None:
+                fs = c.resolve_all(v.func.attr)
+                if len(fs) == 1 and is_private_helper(fs[0]) and "abstractmethod" not in fs[0].decorators:
+                    d, info = fs[0].node, fs[0]
+                    if info.kind == "method" and base[0] != "cls":
+                        self_term, self_cls = base, c
+                    elif info.kind == "classmethod":
+                        self_term, self_cls = ("cls", c.name), c
+                    elif info.kind == "method":
+                        return None
+                    else:
+                        self_cls = c
+        if d is None:
+            return None
+        if info is not None and (info.qualname in self.no_inline or info.qualname in self._inline_stack or info.qualname in self.ev.opaque):
+            return None
+        if d.decorator_list and info is None:
+            return None
+        if info is not None and any(x not in ("staticmethod", "classmethod") for x in info.decorators):
+            return None
+        if d.args.vararg or d.args.kwarg or any(isinstance(n, (ast.Yield, ast.YieldFrom, ast.Nonlocal)) for n in ast.walk(d)):
+            return None
+        return v, d, info, self_term, self_cls
+
+    def _inline_local(self, st: ast.stmt, found, p: Path, fr: Frame) -> List[Path]:
+        """Run the helper's body in place.  Closure: free variables are read from the environment at the time of the call (late binding);
+        private helper: its own parameters only.  Its locals do not leak; its effects are recorded in the order they happen."""
+        call, d, info, self_term, self_cls = found
+        if self._inline_depth >= 5:
+            raise Unsupported("helpers nested too deep")
+        f = self._frame(fr, p)
+        params = [a.arg for a in d.args.posonlyargs + d.args.args + d.args.kwonlyargs]
+        given: Dict[str, Term] = {}
+        if info is not None and info.kind in ("method", "classmethod") and params:
+            given[params[0]] = self_term
+            params = params[1:]
+        for name, a in zip(params, call.args):
+            given[name] = self.ev.expr(a, f)
+        if len(call.args) > len(params):
+            raise Unsupported(f"call of {d.name}: too many positional arguments")
+        for k in call.keywords:
+            given[k.arg] = self.ev.expr(k.value, f)
+        positional = [a.arg for a in (d.args.posonlyargs + d.args.args)]
+        defaults = dict(zip(positional[::-1], d.args.defaults[::-1]))
+        for a, dv in zip(d.args.kwonlyargs, d.args.kw_defaults):
+            if dv is not None:
+                defaults[a.arg] = dv
+        def_frame = Frame(info, info.module, {}, self_cls, 0) if info is not None else f
+        for name in params:
+            if name not in given:
+                if name not in defaults:
+                    raise Unsupported(f"call of helper {d.name}: parameter {name} not bound")
+                given[name] = self.ev.expr(defaults[name], def_frame)
+        outer = dict(p.env)
+        inner_env = dict(p.env) if info is None else {}
+        inner_env.update(given)
+        if info is not None:
+            for a in d.args.posonlyargs + d.args.args + d.args.kwonlyargs:
+                t = inner_env.get(a.arg)
+                if t is not None and t[0] in ("sym", "attr", "call", "sub", "bound") and self.ev.type_of(t) is None:
+                    c = self.ev.ann_class(a.annotation, info.module)
+                    if c is not None:
+                        self.ev.set_type(t, c)
+        q0 = Path(p.cond, list(p.events), inner_env)
+        q0.events.append(Event("enter-local", call, ("const", d.name)))
+        self._inline_depth += 1
+        if info is not None:
+            self._inline_stack.append(info.qualname)
+        try:
+            if info is None:
+                body_frame = Frame(fr.fn, fr.module, inner_env, fr.self_cls, fr.depth)
+            else:
+                body_frame = Frame(info, info.module, inner_env, self_cls or info.cls, fr.depth)
+            outs = self.block(d.body, [q0], body_frame)
+        finally:
+            self._inline_depth -= 1
+            if info is not None:
+                self._inline_stack.pop()
+        res: List[Path] = []
+        for q in outs:
+            if q.exit in ("raise",):
+                q.env = dict(outer)
+                res.append(q)
+                continue
+            if q.exit not in ("return", "fall"):
+                raise Unsupported(f"helper {d.name} leaves with {q.exit}")
+            v = q.value if q.exit == "return" and q.value is not None else NONE
+            env = dict(outer)
+            r = Path(q.cond, q.events, env)
+            r.events.append(Event("leave-local", call, ("const", d.name)))
+            if isinstance(st, ast.Return):
+                r.value, r.exit, r.exit_node = v, "return", st
+            elif isinstance(st, ast.Expr):
+                if v[0] == "call":
+                    r.events.append(Event("effect", st, v))
+            else:
+                tg = st.targets[0] if isinstance(st, ast.Assign) else st.target
+                self._assign(tg, v, r, self._frame(fr, r), st)
+            res.append(r)
+        return res
 
     def _assign(self, tg: ast.expr, v: Term, p: Path, f: Frame, st: ast.stmt):
         if isinstance(tg, ast.Name):
